@@ -517,34 +517,82 @@ func c14StaleStatus(w *World, r *Report) {
 // parent.ChildrenByType(kind) result is passed directly to
 // child.AddChildren / child.AddWhenChildren.
 func c12InheritUnconditional(w *World, r *Report, rule string) {
-	f := w.SSAFunc(w.Func("compile", "inheritCommonProperties"))
-	if f == nil {
-		panic(undecided{"compile.inheritCommonProperties"})
-	}
 	names, _ := nodeTypeNames(w)
-	straight := len(f.Blocks) == 1 && len(f.AnonFuncs) == 0
-	got := map[string]bool{}
-	if len(f.Blocks) > 0 {
-		for _, in := range f.Blocks[0].Instrs {
-			c, ok := in.(*ssa.Call)
-			if !ok || !c.Call.IsInvoke() || (nm(c.Call.Method) != "AddChildren" && nm(c.Call.Method) != "AddWhenChildren") || c.Call.Value != ssa.Value(f.Params[1]) {
-				continue
-			}
-			src, ok := c.Call.Args[len(c.Call.Args)-1].(*ssa.Call)
-			if !ok || !src.Call.IsInvoke() || nm(src.Call.Method) != "ChildrenByType" || src.Call.Value != ssa.Value(f.Params[0]) {
-				continue
-			}
-			if k, ok := src.Call.Args[0].(*ssa.Const); ok && k.Value != nil {
-				if v, ok := constant.Int64Val(constant.ToInt(k.Value)); ok {
-					got[names[v]] = true
+	for _, fo := range c12InheritFuncs(w) {
+		f := w.SSAFunc(fo)
+		label := nm(fo)
+		if len(c12InheritFuncs(w)) == 1 {
+			label = "inheritCommonProperties"
+		}
+		straight := len(f.Blocks) == 1 && len(f.AnonFuncs) == 0
+		got := map[string]bool{}
+		if len(f.Blocks) > 0 {
+			for _, in := range f.Blocks[0].Instrs {
+				c, ok := in.(*ssa.Call)
+				if !ok || !c.Call.IsInvoke() || (nm(c.Call.Method) != "AddChildren" && nm(c.Call.Method) != "AddWhenChildren") || c.Call.Value != ssa.Value(f.Params[1]) {
+					continue
+				}
+				src, ok := c.Call.Args[len(c.Call.Args)-1].(*ssa.Call)
+				if !ok || !src.Call.IsInvoke() || nm(src.Call.Method) != "ChildrenByType" || src.Call.Value != ssa.Value(f.Params[0]) {
+					continue
+				}
+				if k, ok := src.Call.Args[0].(*ssa.Const); ok && k.Value != nil {
+					if v, ok := constant.Int64Val(constant.ToInt(k.Value)); ok {
+						got[names[v]] = true
+					}
 				}
 			}
 		}
+		for _, k := range []string{"if-feature", "when", "status"} {
+			r.Check(straight && got[k], rule, label+" hands down "+k+" unconditionally", f.Pos(), "child.Add…Children(parent.ChildrenByType("+k+")...) in a straight-line body",
+				"the "+k+" written on a uses/augment is not (or only conditionally) added to each node it introduces: e.g. a node with its own "+k+" no longer receives the enclosing one, so it stays present/current when the uses or augment is disabled/obsolete")
+		}
 	}
-	for _, k := range []string{"if-feature", "when", "status"} {
-		r.Check(straight && got[k], rule, "inheritCommonProperties hands down "+k+" unconditionally", f.Pos(), "child.Add…Children(parent.ChildrenByType("+k+")...) in a straight-line body",
-			"the "+k+" written on a uses/augment is not (or only conditionally) added to each node it introduces: e.g. a node with its own "+k+" no longer receives the enclosing one, so it stays present/current when the uses or augment is disabled/obsolete")
+}
+
+// c12InheritFuncs: the function(s) of package compile that hand the when /
+// if-feature / status of a uses or augment down to a node: the recorded
+// inheritCommonProperties where it still exists, else every function of
+// (parent, child parse.Node[, …]) that calls child.AddWhenChildren — one
+// helper per kind of parent instead of one with a flag.
+func c12InheritFuncs(w *World) []*types.Func {
+	if f := w.tryFunc("compile", "inheritCommonProperties"); f != nil {
+		return []*types.Func{f}
 	}
+	var out []*types.Func
+	p := w.Pkg("compile")
+	for _, fd := range funcDecls(p) {
+		if isTestFile(w, fd.Pos()) || fd.Recv != nil {
+			continue
+		}
+		fo, _ := p.TypesInfo.Defs[fd.Name].(*types.Func)
+		if fo == nil {
+			continue
+		}
+		sig := fo.Type().(*types.Signature)
+		if sig.Params().Len() < 2 || sig.Params().At(0).Type().String() != sig.Params().At(1).Type().String() || !strings.HasSuffix(sig.Params().At(0).Type().String(), "parse.Node") {
+			continue
+		}
+		f := w.SSAFunc(fo)
+		if f == nil {
+			continue
+		}
+		calls := false
+		for _, b := range f.Blocks {
+			for _, in := range b.Instrs {
+				if c, ok := in.(*ssa.Call); ok && c.Call.IsInvoke() && nm(c.Call.Method) == "AddWhenChildren" && c.Call.Value == ssa.Value(f.Params[1]) {
+					calls = true
+				}
+			}
+		}
+		if calls {
+			out = append(out, fo)
+		}
+	}
+	if len(out) == 0 {
+		panic(undecided{"func compile.inheritCommonProperties not found"})
+	}
+	return out
 }
 
 // R14.9  deviate not-supported is exclusive wherever it stands: the
